@@ -109,6 +109,12 @@ class EngineBase:
         else:
             allh = list(self.background) + list(st.pc) + list(st.guards)
             r = z3.unknown
+            # budget discipline: once an obligation of this function has stayed `unknown` after the full ladder the function is
+            # undecided anyway, so later obligations get the short ladder (they can still be refuted or discharged); past the
+            # per-function wall deadline the budgets shrink further.  `unknown` is never reported as a violation.
+            late = bool(getattr(self, 'deadline', None)) and time.time() > self.deadline
+            short = late or getattr(self, 'had_unknown', False)
+            base_ms = min(self.timeout_ms, 3000) if late else self.timeout_ms
             if len(allh) > 40:
                 # small query first: only hypotheses sharing an uninterpreted symbol with the goal (sound: a subset); `unsat` is definitive
                 s1 = self._solver(min(1200, self.timeout_ms))
@@ -117,14 +123,14 @@ class EngineBase:
                 if s1.check() == z3.unsat:
                     r = z3.unsat
                     backend = 'z3(relevance-1)'
-            s = self._solver()
+            s = self._solver(base_ms)
             s.add(*self.background)
             s.add(*st.pc)
             s.add(*st.guards)
             s.add(z3.Not(goal))
             if r != z3.unsat:
                 r = s.check()
-            if r == z3.unknown:
+            if r == z3.unknown and not short:
                 # relevance filtering: retry with only the hypotheses connected to the goal through shared
                 # uninterpreted symbols (sound: a subset of the hypotheses); widening radius
                 for depth in (2, 3):
@@ -137,7 +143,7 @@ class EngineBase:
                         r = r2
                         backend = f'z3(relevance-{depth})'
                         break
-            if r == z3.unknown:
+            if r == z3.unknown and not short:
                 # one retry with a longer budget and another seed: verdicts must not flip when the machine is busy
                 s = self._solver(self.timeout_ms * 4)
                 s.set(random_seed=7)
@@ -167,6 +173,8 @@ class EngineBase:
                 smt2 = smt2 or s.to_smt2()
             else:
                 smt2 = None
+        if status == 'unknown':
+            self.had_unknown = True
         ob = Obligation(oid, kind, status, backend, round(time.time() - t0, 4), model, mvals, smt2)
         # the same obligation id can be reached on several paths: keep all, the report aggregates
         self.obligations.append(ob)
